@@ -119,6 +119,9 @@ def main(argv):
                 res.violations.append(common.Violation(what=k['what'], fingerprint=fp, replay=k['witness']))
             else:
                 res.notes.append(f'known finding {k.get("id")} no longer reproduces on its witness (got {fp})')
+    if common.LOG_COUNT['DEBUG']:
+        res.bump('histories / generations run with the toolbox logging at DEBUG', common.LOG_COUNT['DEBUG'])
+        res.bump('histories / generations run at the default log level', common.LOG_COUNT['default'])
     return common.finish(pid, tier, seed, lean, res, mod.ASSUMPTIONS, mod.TRUSTED, t0,
                          getattr(mod, 'PARTIAL', ''))
 
